@@ -33,6 +33,7 @@ Definition fields_ok (i : instr) : Prop :=
   | IOrrImm sf n immr imms rn rd => bitmask_valid sf n imms = true /\ r32 rn /\ r32 rd
   | INop => True
   | IVLdStImm _ _ _ _ _ _ _ | IVLdStReg _ _ _ _ _ _ _ | IVLdStPair _ _ _ _ _ _ _ => True
+  | IVIns _ _ _ _ _ | IVInsG _ _ _ _ | IVUmov _ _ _ _ | IVDupS _ _ _ _ | IVMovV _ _ _ | IVAddSubD _ _ _ _ => True
   | IBImm _ _ => True
   | IBReg opc rn => (opc = 0 \/ opc = 1 \/ opc = 2) /\ r32 rn
   | IBCond cond _ => 0 <= cond < 16
@@ -54,11 +55,23 @@ Qed.
 Ltac bl := apply bits_lt; [lia|reflexivity].
 Ltac blh h l := match goal with w : Z |- _ => pose proof (bits_lt w h l _ ltac:(lia) eq_refl) end.
 
-Theorem decode_fields w i : decode w = Some i -> fields_ok i.
+Lemma decode_simd_fields w i : decode_simd w = Some i -> fields_ok i.
 Proof.
-  unfold decode. cbv zeta. intros H.
+  unfold decode_simd. cbv zeta. intros H.
   repeat match type of H with
          | context [if ?c then _ else _] => let E := fresh "E" in destruct c eqn:E
+         | context [match imm5_size ?x with _ => _ end] => let E := fresh "E" in destruct (imm5_size x) eqn:E
+         end; try discriminate H; inversion H; subst i; exact I.
+Qed.
+
+Theorem decode_fields w i : decode w = Some i -> fields_ok i.
+Proof.
+  unfold decode. destruct (decode_simd w) as [i'|] eqn:Es.
+  { intros H. inversion H; subst i'. apply (decode_simd_fields w); exact Es. }
+  clear Es. unfold decode_int. cbv zeta. intros H.
+  repeat match type of H with
+         | context [if ?c then _ else _] => let E := fresh "E" in destruct c eqn:E
+         | context [match imm5_size ?x with _ => _ end] => let E := fresh "E" in destruct (imm5_size x) eqn:E
          end; try discriminate H; inversion H; subst i; clear H; cbn [fields_ok]; unfold r32;
     repeat match goal with |- _ /\ _ => split end; try bl; try exact I;
     try (eapply proj1; bl); try (eapply proj2; bl).
@@ -93,10 +106,14 @@ Definition is_subs (i : instr) : bool :=
   | _ => false
   end.
 
-(* SIMD&FP register loads/stores: specified (Isa/A64.v), mirrored, tied and compared on sampled states per run,
+(* SIMD&FP register loads/stores, AdvSIMD element moves and the scalar D add/sub: specified (Isa/A64.v), mirrored, tied and compared on sampled states per run,
    but outside [sim_all]: the embedding [emb] of the theorems does not speak about V0..V31 *)
 Definition is_vector (i : instr) : bool :=
-  match i with IVLdStImm _ _ _ _ _ _ _ | IVLdStReg _ _ _ _ _ _ _ | IVLdStPair _ _ _ _ _ _ _ => true | _ => false end.
+  match i with
+  | IVLdStImm _ _ _ _ _ _ _ | IVLdStReg _ _ _ _ _ _ _ | IVLdStPair _ _ _ _ _ _ _
+  | IVIns _ _ _ _ _ | IVInsG _ _ _ _ | IVUmov _ _ _ _ | IVDupS _ _ _ _ | IVMovV _ _ _ | IVAddSubD _ _ _ _ => true
+  | _ => false
+  end.
 
 (* a form the lifter rejects satisfies [sim] vacuously *)
 Lemma sim_rejected addr i e : lift addr i = Err e -> sim addr i.
@@ -145,7 +162,7 @@ Theorem sim_all addr i : fields_ok i -> is_vector i = false -> sim_c (is_subs i)
 Proof.
   destruct i as [sf sub setflags sh imm12 rn rd|sf sub setflags k rm imm6 rn rd|sf sub setflags k rm imm3 rn rd
                 |sf k rm imm6 rn rd|sf opc hw imm16 rd|size opc mode scaled imm rn rt|size opc rm option sb rn rt
-                |opc imm19 rt|opc mode load imm7 rt2 rn rt|size load o0 rn rt|size load o0 rn rt|sf n immr imms rn rd| |scale load mode scaled imm rn rt|scale load rm option sb rn rt|opc mode load imm7 rt2 rn rt|link imm26|opc rn|cond imm19|sf nz imm19 rt|b5 nz b40 imm14 rt];
+                |opc imm19 rt|opc mode load imm7 rt2 rn rt|size load o0 rn rt|size load o0 rn rt|sf n immr imms rn rd| |scale load mode scaled imm rn rt|scale load rm option sb rn rt|opc mode load imm7 rt2 rn rt|size dst src rn rd|size idx rn rd|size idx rn rd|size idx rn rd|q rn rd|sub rm rn rd|link imm26|opc rn|cond imm19|sf nz imm19 rt|b5 nz b40 imm14 rt];
     cbn [fields_ok is_subs is_vector]; unfold r32; intros Hf Hv; try discriminate Hv; revert Hf.
   - intros (H1 & H2 & H3). destruct setflags.
     + rewrite andb_true_r. apply addsubs_imm_simc; assumption.
